@@ -5,7 +5,7 @@ V = os.path.dirname(os.path.dirname(os.path.abspath(__file__)))
 res = collections.OrderedDict()
 for fn in sys.argv[1:]:
     for l in open(fn):
-        m = re.match(r"^(C\d+_m\d+) (C\d+) exit=(\d+) ::\s*(.*)$", l.strip())
+        m = re.match(r"^(C\d+_m\d+) (C\d+) exit=(\d+) (?:::|\d+ violation\(s\):)\s*(.*)$", l.strip())
         if m:
             res[(m.group(1), m.group(2))] = (int(m.group(3)), re.sub(r"\s+", " ", m.group(4)).strip())
 by = collections.OrderedDict()
